@@ -12,6 +12,7 @@ import (
 
 	"verif/harness/chain"
 	"verif/harness/h"
+	_ "verif/harness/warm"
 )
 
 var P = h.New("C02", "exploration",
